@@ -418,6 +418,38 @@ class Exec:
             e2_ = dict(cenv)
             e2_.update(dict(zip(rargs, zs_)))
             z3.RecAddDefinition(f_, zs_, to_z3(self.eval_clause(rbody, e2_, NORESULT), rsort))
+        elif kind == "defun":
+            # defun f(a, b) : real = <body over a, b and the inputs> - a NON-recursive spec function introduced by definition (a
+            # conservative extension): an uninterpreted symbol whose defining equation is made available only where the contract
+            # asks for it (`unfold f(x, y)`), so that the body (e.g. nonlinear arithmetic) stays out of every other goal
+            import re as _re
+            m_ = _re.match(r"\s*(\w+)\s*\(([^)]*)\)\s*:\s*(\w+)\s*=\s*(.*)$", body, _re.S)
+            if not m_:
+                raise Unsupported("ghost statement " + cl)
+            dname, dargs, dsort, dbody = m_.group(1), [a.strip() for a in m_.group(2).split(",") if a.strip()], m_.group(3), m_.group(4)
+            from . import verify as _vf
+            _vf._REC_COUNTER[0] += 1
+            F_ = z3.Function(f"def_{dname}_{_vf._REC_COUNTER[0]}", *([z3.IntSort()] * len(dargs)), V.sort_of(dsort))
+            if not hasattr(self.ctx, "recfuns"):
+                self.ctx.recfuns = {}
+            self.ctx.recfuns[dname] = (lambda ex_, a_, k_, n_, f=F_: f(*[to_z3(x, "int") for x in a_]))
+            self.ctx.__dict__.setdefault("defuns", {})[dname] = (F_, dargs, dsort, dbody, dict(cenv))
+        elif kind == "unfold":
+            import re as _re
+            m_ = _re.match(r"\s*(\w+)\s*\((.*)\)\s*$", body, _re.S)
+            if not m_ or m_.group(1) not in self.ctx.__dict__.get("defuns", {}):
+                raise Unsupported("ghost statement " + cl)
+            F_, dargs, dsort, dbody, denv = self.ctx.defuns[m_.group(1)]
+            vals = self.eval_clause("(" + m_.group(2) + ",)", cenv, NORESULT)
+            e2_ = dict(denv)
+            e2_.update(dict(zip(dargs, vals)))
+            self.assume(F_(*[to_z3(x, "int") for x in vals]) == to_z3(self.eval_clause(dbody, e2_, NORESULT), dsort))
+        elif kind == "store":
+            # store <ghost array>, <index>, <value>: ghost assignment arr[index] = value
+            arr_, idx_, val_ = self.eval_clause("(" + body + ",)", cenv, NORESULT)
+            if not isinstance(arr_, Arr) or arr_.rank != 1:
+                raise Unsupported("ghost store into something else than a 1-D ghost array")
+            arr_.set_term(z3.Store(arr_.term, to_z3(idx_, "int"), to_z3(val_, arr_.kind)))
         elif kind == "append":
             # append <listmap>, <key>, <value>: ghost append to row <key> of a ghost dict-of-lists
             lm_, key_, val_ = self.eval_clause("(" + body + ",)", cenv, NORESULT)
@@ -816,10 +848,24 @@ class Exec:
                     env[n] = Arr.fresh(n, shape if v.base is None else list(v.shape), v.kind, ghost=dict(v.ghost))
                     continue
                 env[n] = self.havoc_value(v, n, in_place=True)
-        anchored = [x for xs in ((fr.contract.asserts or {}).values() if fr.contract else []) for x in xs if x.startswith("append ")]
+        # ghost containers written by ghost statements anchored INSIDE this loop's body are part of what the loop modifies
+        lines = set()
+        for st_ in body:
+            for x_ in ast.walk(st_):
+                if isinstance(x_, ast.stmt) and hasattr(x_, "lineno"):
+                    lines.add(ast.unparse(x_).split("\n")[0])
+
+        def _inside(key):
+            kind_, _, rest = key.partition(":") if ":" in key.split("^")[0] else key.partition("^")
+            if "^" in key and not key.split("^")[0].endswith(":"):
+                pref = key.split("^", 1)[1].partition("#")[0]
+                return any(l.startswith(pref) for l in lines)
+            return key.split(":", 1)[1] in lines
+        anchored = [x for k_, xs in ((fr.contract.asserts or {}).items() if fr.contract else []) if _inside(k_) for x in xs
+                    if x.startswith(("append ", "store "))]
         for g in list(self.st.ghostvars):
             if spec.modifies is None or g in names:
-                if any(g in x for x in spec.ghost_step) or any(x[len("append "):].split(",")[0].strip() == g for x in anchored):
+                if any(g in x for x in spec.ghost_step) or any(x.split(" ", 1)[1].split(",")[0].strip() == g for x in anchored):
                     self.st.ghostvars[g] = self.havoc_value(self.st.ghostvars[g], g, in_place=False)
 
     def havoc_value(self, v, name, in_place):
